@@ -4,26 +4,26 @@ import (
 	"github.com/free5gc/nas/nasType"
 )
 
-// TS 24.501 9.11.3.35, TS 24.008 10.5.3.5a
-func FullNetworkNameToNas(name string) (fullNetworkName nasType.FullNameForNetwork) {
-	asciiArray := []byte(name)
-	numOfSpareBits := 8 - ((7 * len(asciiArray)) % 8)
-
-	var buf []uint8
-	idx := uint8(7)
-	for i, char := range asciiArray {
-		if i == 0 {
-			buf = append(buf, char)
-		} else {
-			buf[i-1] = (buf[i-1] & nasType.GetBitMask(idx+1, 0)) + char<<idx
-			buf = append(buf, char>>(8-idx))
-			idx--
-			// if idx overflow, it will round to max(uint8) == 255 == ^uint8(0)
-			if idx == ^uint8(0) {
-				idx = 7
-			}
+// packGsm7Bit packs 7-bit characters as in TS 23.038 6.1.2.1.1: character i occupies bits 7i..7i+6 of the
+// octet string, least significant bit first. It returns the packed text and the number of spare bits
+// in the last octet.
+func packGsm7Bit(chars []byte) (buf []uint8, numOfSpareBits int) {
+	buf = make([]uint8, (7*len(chars)+7)/8)
+	for i, char := range chars {
+		bit := 7 * i
+		septet := uint16(char&0x7f) << (bit % 8)
+		buf[bit/8] |= uint8(septet)
+		if septet>>8 != 0 {
+			buf[bit/8+1] |= uint8(septet >> 8)
 		}
 	}
+	numOfSpareBits = (8 - (7*len(chars))%8) % 8
+	return buf, numOfSpareBits
+}
+
+// TS 24.501 9.11.3.35, TS 24.008 10.5.3.5a
+func FullNetworkNameToNas(name string) (fullNetworkName nasType.FullNameForNetwork) {
+	buf, numOfSpareBits := packGsm7Bit([]byte(name))
 
 	fullNetworkName.SetLen(uint8(1 + len(buf)))
 	fullNetworkName.SetCodingScheme(0)
@@ -35,24 +35,7 @@ func FullNetworkNameToNas(name string) (fullNetworkName nasType.FullNameForNetwo
 }
 
 func ShortNetworkNameToNas(name string) (shortNetworkName nasType.ShortNameForNetwork) {
-	asciiArray := []byte(name)
-	numOfSpareBits := 8 - ((7 * len(asciiArray)) % 8)
-
-	var buf []uint8
-	idx := uint8(7)
-	for i, char := range asciiArray {
-		if i == 0 {
-			buf = append(buf, char)
-		} else {
-			buf[i-1] = (buf[i-1] & nasType.GetBitMask(idx+1, 0)) + char<<idx
-			buf = append(buf, char>>(8-idx))
-			idx--
-			// if idx overflow, it will round to max(uint8) == 255 == ^uint8(0)
-			if idx == ^uint8(0) {
-				idx = 7
-			}
-		}
-	}
+	buf, numOfSpareBits := packGsm7Bit([]byte(name))
 
 	shortNetworkName.SetLen(uint8(1 + len(buf)))
 	shortNetworkName.SetCodingScheme(0)
